@@ -123,7 +123,8 @@ def verify(sh, h, cols, label, target_only, heuristic, cap_arg, out, pool, via, 
     # the sampler call that belongs to the pair list is the last one (compute_combined_features also samples, earlier)
     offered = h.offered[-1] if h.offered else None
     if offered is None:
-        sh.inconclusive_note('sampler wrapper not reached')
+        # the sampler was never consulted: still, nothing may be missing from the rank graph
+        sh.check('requested-set', E >= req and not (E - req - optional), 'requested-pair-not-evaluated', lambda: wit(missing=sorted(map(sorted, req - E))[:8], note='sampler not reached'))
         return
     offered_set = {frozenset(c) for c in offered}
     ok_req = req <= offered_set and offered_set <= (req | optional)
@@ -163,6 +164,8 @@ def make_frame(cols, nrows, nprng):
     data = {}
     for i, c in enumerate(cols):
         data[c] = ['v%d' % v for v in nprng.integers(0, 2 + i % 3, nrows)]
+        if i % 4 == 3 or nprng.random() < 0.15:
+            data[c] = ['const'] * nrows          # a column that is constant inside the batch (Pearson is NaN there, the pair is still listed)
     return pd.DataFrame(data, columns=cols)
 
 
